@@ -145,7 +145,9 @@ def drv_branches(ctx, k, rng):
     mon = "branches.agree"
     ctx.seen(mon)
     rel = 1e-12 if a.dtype == F64 else 1e-5
-    sc = float(a.abs().max()) + 1e-12
+    # the two branches multiply the same numbers in (N,T,F) and (N,1,F) blocks: the difference is eps times the size of the *intermediate*
+    # activations (O(1)), not of a possibly tiny output
+    sc = float(a[torch.isfinite(a)].abs().max() if torch.isfinite(a).any() else 0.0) + 1.0
     fin = torch.isfinite(a) & torch.isfinite(b)
     ok = a.shape == b.shape and bool(((a - b).abs()[fin] <= rel * sc).all()) and bool((torch.isfinite(a) == torch.isfinite(b)).all())
     psc = float(pa[torch.isfinite(pa)].abs().max()) + sc if torch.isfinite(pa).any() else 1.0
